@@ -12,13 +12,14 @@ def run(tier):
         "SCHED: goroutines are interleaved at synchronisation points (mutex, channel, select, go, defer of these); every schedule with at most P preemptions is explored by the executor (decision vectors), Go channel semantics incl. unbuffered rendezvous and select/default",
         "CLOCK: no timer elapses while the arm/stop program runs and until all goroutines are parked ('stopped well before expiry'); afterwards every pending time.After fires",
         "CUT: ShipConnection.handleState is replaced by a recorder of timeout deliveries (the reaction to a timeout is C01/C04's subject)",
-        "this check has no data symbols: the deciding step is the exhaustive bounded exploration of schedules and arm/stop programs by the engine; the SMT solver is only consulted for feasibility (none needed here)",
+        "symbolic-time part (H_C14_SymTime): time is a solver variable - both timer durations (short 5..60 s, long >= short+10 s, <= 120 s) and the pause before every operation (0..30 s) are symbolic, time.After(d) expires at clock+d and the solver decides at every scheduling point which timers may have expired (both outcomes explored when both are feasible); oracle: every delivered timeout is attributable to a timer that had expired and was still current at its expiry instant, a timer left armed eventually delivers, no more deliveries than arms, no timer goroutine left",
+        "abstract-clock parts (H_C14_Timer*, H_C14_Concurrent): no data symbols, the deciding step there is the exhaustive bounded exploration of schedules and arm/stop programs by the engine",
     ]
     c.assumptions.append("concurrent part (H_C14_Concurrent): two goroutines arm (short / long, different timer types) and optionally stop at the same time; the timer the connection reports as current once both are done is the only one that may deliver, at its own deadline")
     ops = 3
     pre = 4 if tier == "thorough" else 3
-    c.bounds = {"arm_stop_operations": ops, "preemption_bound": pre, "timer_goroutines": ops}
-    entries = ["H_C14_Timer2", "H_C14_Timer3", "H_C14_Concurrent"] + (["H_C14_Timer4"] if tier == "thorough" else [])
+    c.bounds = {"symbolic_time_operations": 3 if tier == "thorough" else 2, "arm_stop_operations": ops, "preemption_bound": pre, "timer_goroutines": ops}
+    entries = ["H_C14_Timer2", "H_C14_Timer3", "H_C14_Concurrent", "H_C14_SymTime2"] + (["H_C14_Timer4", "H_C14_SymTime3"] if tier == "thorough" else [])
     res, meta = lib.run_engine("ship", entries, sched="explore", preempt=pre, cuts=C14_CUTS, loop=80, paths=3000000)
     c.add_run("timer-schedules", res, meta)
     for e, r in (res or {}).items():
